@@ -37,9 +37,11 @@ func baseProfile(name string) *Profile {
 		PTimeoutTg: 0.3,
 		PDup:       0.2,
 		PBoundary:  0.35,
+		HotP:       0.5,
+		PFine:      0.4,
 		PJump:      0.05,
 		Crons:      []string{"* * * * * *", "*/30 * * * * *", "* * * * *", "*/5 * * * *", "0 * * * *", "@every 90s", "@hourly", "15 10 * * *"},
-		TimeoutRel: []int64{-1000, 0, 1, 50, 500, 1000, 5000, 60000, 10_000_000},
+		TimeoutRel: []int64{-1000, 0, 1, 50, 500, 1000, 2000, 5000, 5000, 60000, 10_000_000},
 		Ttls:       []int64{0, 1, 10, 1000, 5000, 100000},
 	}
 }
@@ -58,7 +60,10 @@ func ProfileFor(prop string) *Profile {
 		p.Promises = []string{"p0", "p1", "p2"}
 		p.PCrashRun = 0.3
 		p.PReorder = 0.2
+		p.PBoundary = 0.5
+		p.TimeoutRel = []int64{0, 1, 50, 500, 1000, 2000, 5000, 5000, 20000}
 	case "C02":
+		p.PBoundary = 0.45
 		p.PReorder = 0.15
 	case "C03":
 		only(p, map[string]int{"CreatePromise": 30, "CreatePromiseAndTask": 10, "CompletePromise": 40, "ReadPromise": 5})
